@@ -496,7 +496,7 @@ impl<'c, KD: Kind, const N: usize> MapEng<'c, KD, N> {
             OP_DISJOINT => self.op_disjoint(w, a, b, c, use_unchecked),
             OP_DISJOINT_SWEEP => self.op_disjoint_sweep(w, a),
             OP_OVERFLOW_SWEEP => self.op_overflow_sweep(w, a, b),
-            OP_FMT => self.op_fmt(w, a),
+            OP_FMT => self.op_fmt(w, a, b),
             OP_EQ => self.op_eq(a),
             OP_CAP => self.op_cap(w, a),
             OP_FROM_ITER => self.op_from_iter(a, b, c),
